@@ -275,6 +275,8 @@ def well_formed(ast):
         elif k == "grp":
             walk(n[1], in_call, is_root)
         elif k == "assign":
+            if n[1][2] is not None:
+                raise Reject("keyword name with a level")  # f(x[a]=1): the [a] could only be ignored
             walk(n[2], in_call, False)
         elif k == "call":
             if n[1][0] != "var":
